@@ -239,6 +239,11 @@ var NestedInputs = []string{
 	`[{"a":5,"b":1},[1,7,2],{"c":9},[5,5]]`,
 }
 
+// ErrTextCanon: .c is recorded for deletion, .a becomes 1, getpath(["a","b"]) then fails on the accumulator
+// {"a":1,"c":0}; advancing the iterator after that error applies the deletion in place and the message now
+// previews {"a":1}.
+var ErrTextCanon = [2]string{`(.c, .a, .a.b) |= (if type == "number" then empty else 1 end)`, `{"a":{"b":0},"c":0}`}
+
 var genPaths = []string{
 	`.a`, `.b`, `.c`, `.[0]`, `.[1]`, `.[-1]`, `.[]`, `.[]?`, `.[1:]`, `.[:2]`, `.[1:3]`, `.a.b`, `.a[0]`, `.b.c`, `.b.c[0]`, `.c[0].b`,
 	`..`, `.a?`, `(.a, .b)`, `(.[0], .[1])`, `.a[]?`, `.[0][]?`, `getpath(["a", "b"])`, `first(.[]?)`, `.[]?.a?`, `.k7.x`, `.k8[0]`, `.k4[0].a`,
@@ -336,6 +341,8 @@ func GenJobs(r *Rng, n int, probeInputs int) []Job {
 	for _, st := range Steered {
 		js = append(js, Job{Program: st[0], Input: st[1], Other: st[2], Origin: "probe", Vars: []string{vars[0]}})
 	}
+	// canonical case of the known family "error text of getpath/setpath/delpaths drifts" (docs/C05.md, F2)
+	js = append(js, Job{Program: ErrTextCanon[0], Input: ErrTextCanon[1], Origin: "probe", Vars: []string{vars[0]}})
 	for i := 0; i < n; i++ {
 		p := GenProgram(r, 1+r.Intn(3))
 		js = append(js, Job{Program: withX(p), Input: Inputs[r.Intn(len(Inputs))], Origin: "gen", Vars: []string{vars[r.Intn(len(vars))]}})
